@@ -1,5 +1,5 @@
 import PyYetiVerif.Model.Binify
-import PyYetiVerif.Model.Findap
+import PyYetiVerif.Model.FindapFix
 import PyYetiVerif.Model.Rainflow
 /-
 Model of the rest of `pyyeti.cyclecount.binify` / `sigcount` around `_binify`:
@@ -79,7 +79,7 @@ def binifyFull (right : Bool) (precision : Nat) (retbins usePandas check : Bool)
 /-- `rainflow(sig[findap(sig)], use_pandas=False)` as `[amp, mean, count]` rows; `none` = the
 `ValueError` of an empty signal or of fewer than two reversals -/
 def cycleRows (tol : Rat) (y : List Rat) : Option (List (Rat × Rat × Rat)) :=
-  match Findap.findapDef tol y with
+  match Findap.findapDefFix tol y with
   | none => none
   | some m =>
       (Rainflow.rainflowApi (Findap.select m y)).map fun t =>
